@@ -82,6 +82,11 @@ def obligations(tier):
                                 'InstanceIdentifier(root="sdc.ctxt.loc.detail") without extension'),
                       claim='the published service is returned by filter_services_inside of its own location, of every enclosing '
                             'location and of the unrestricted location; a service without scopes never is'))
+    obs.append(Ob('C16.published.after-update', 'harness.C16', 'published_after_update', timeout=t, functions=F_PUB, stubs=S_MDIB,
+                  bounds='the same LocationContextState updated twice with update_from_sdc_location: every present/absent pattern of the '
+                         'six elements for the first (64) and for the second location (64)',
+                  claim='the scope published afterwards is the one of the SECOND location: parses back to it, inside it, not inside a '
+                        'location that specifies an element only the first one had'))
     diff_cases = [(d, 0) for d in range(6)] + ([(0, 1)] if quick else [(d, 1) for d in range(6)])
     for d, ident in diff_cases:
         obs.append(Ob(f'C16.published.differs.{EL[d]}{".root-only-id" if ident else ""}', 'harness.C16', 'published_differs',
